@@ -315,6 +315,33 @@ def _run_model(case, ctx):
         for x in pts:
             st, v = _call(fn, x)
             ref_vals.append(_scalar(v) if st == "ok" else None)
+        # ---- whole numbers delivered as integers (python int, numpy integer scalar, integer arrays): same values as the floats
+        lo_w, hi_w = min(pts), max(pts)
+        ints = [k for k in range(1, 30) if lo_w <= k <= hi_w][:3]
+        if ints and not (numeric and label == inv_name and name == "Virial"):
+            for ikind, arg in (("py-int", ints[0]), ("np-int", numpy.int64(ints[0])), ("0d-int", numpy.asarray(ints[0])), ("1d-int", numpy.array(ints, dtype=numpy.int64)), ("1d-int32", numpy.array(ints, dtype=numpy.int32))):
+                stf, vf = _call(fn, float(arg) if numpy.ndim(arg) == 0 else numpy.asarray(arg, dtype=float))
+                sti, vi = _call(fn, arg)
+                ctx.case([name, dg, "integer-input", label, ikind])
+                ctx.count("array_kinds", "%s/%s" % (label, ikind))
+                if stf == "ok" and sti != "ok":
+                    ctx.violation("%s.%s/integer-input-raises/%s" % (name, label, ikind), "an integer-typed argument raised although the same value as float is fine", P=P, arg=arg, exc=vi)
+                elif stf == "ok" and sti == "ok":
+                    a_, b_ = numpy.asarray(vf, dtype=float).reshape(-1), numpy.asarray(vi, dtype=float).reshape(-1)
+                    if a_.shape != b_.shape or not all(close(x, y, 1e-9, 1e-300) or (math.isnan(x) and math.isnan(y)) for x, y in zip(a_, b_)):
+                        ctx.violation("%s.%s/integer-input-differs/%s" % (name, label, ikind), "an integer-typed argument gives another result than the same value as float", P=P, arg=arg, as_float=a_, as_int=b_)
+        # ---- a descending sweep over the same points on the same model object, then ascending again: every call stands on its own
+        seq = list(pts)[::-1] + list(pts)
+        second = {}
+        for x in seq:
+            st_, v_ = _call(fn, x)
+            second.setdefault(x, []).append(_scalar(v_) if st_ == "ok" else None)
+        ctx.case([name, dg, "order-of-calls", label])
+        for x, ref_v in zip(pts, ref_vals):
+            for v2 in second.get(x, []):
+                if ref_v is not None and v2 is not None and not (close(v2, ref_v, 1e-7, 1e-300) or (math.isnan(v2) and math.isnan(ref_v))):
+                    ctx.violation("%s.%s/result-depends-on-earlier-calls" % (name, label), "the same argument gives another result after a sweep in another order on the same model object", P=P, x=x, first=ref_v, later=v2)
+                    break
         for kind in ("np64", "0d", "1d-1", "1d-2", "1d-all", "1d-rotated", "1d-shuffled", "list"):
             if kind == "np64":
                 arg, idx = numpy.float64(pts[0]), [0]
